@@ -41,6 +41,47 @@ struct step_file {
 	VECTOR(struct step)	 steps;
 };
 
+#ifdef ROBSD_VERIF
+/*
+ * Verification hook: named synchronisation points.  When ROBSD_VERIF_SYNC
+ * names a directory holding the FIFOs "report" and "go.<ROBSD_VERIF_SYNC_ID>",
+ * report the point to the external scheduler and wait for its go-ahead.
+ * Does nothing unless the variable is set.
+ */
+static void
+verif_sync(const char *point)
+{
+	char path[PATH_MAX], msg[128];
+	const char *dir, *id;
+	char ch;
+	int fd, n;
+
+	dir = getenv("ROBSD_VERIF_SYNC");
+	id = getenv("ROBSD_VERIF_SYNC_ID");
+	if (dir == NULL || id == NULL)
+		return;
+	(void)snprintf(path, sizeof(path), "%s/report", dir);
+	fd = open(path, O_WRONLY);
+	if (fd == -1)
+		return;
+	n = snprintf(msg, sizeof(msg), "%s %s\n", id, point);
+	if (write(fd, msg, (size_t)n) == -1) {
+		close(fd);
+		return;
+	}
+	close(fd);
+	(void)snprintf(path, sizeof(path), "%s/go.%s", dir, id);
+	fd = open(path, O_RDONLY);
+	if (fd == -1)
+		return;
+	(void)read(fd, &ch, 1);
+	close(fd);
+}
+#define VERIF_SYNC(point) verif_sync(point)
+#else
+#define VERIF_SYNC(point) ((void)0)
+#endif
+
 struct step_lexer_context {
 	struct step_file        *sf;
 	struct buffer           *bf;
@@ -126,11 +167,13 @@ steps_parse(const char *path, struct arena_scope *eternal_scope)
 		error = 1;
 		goto out;
 	}
+	VERIF_SYNC("open");
 	if (flock(sf->flock, LOCK_EX) == -1) {
 		warn("flock: %s", path);
 		error = 1;
 		goto out;
 	}
+	VERIF_SYNC("lock");
 
 	bf = buffer_alloc(512);
 	if (bf == NULL)
@@ -151,6 +194,7 @@ steps_parse(const char *path, struct arena_scope *eternal_scope)
 	    },
 	});
 	buffer_free(bf);
+	VERIF_SYNC("read");
 	if (lx == NULL) {
 		error = 1;
 		goto out;
@@ -195,6 +239,7 @@ steps_free(struct step_file *sf)
 
 	if (sf->flock != -1) {
 		flock(sf->flock, LOCK_UN);
+		VERIF_SYNC("unlock");
 		close(sf->flock);
 	}
 }
@@ -282,18 +327,21 @@ steps_write(struct step_file *sf, struct arena *scratch)
 		error = 1;
 		goto out;
 	}
+	VERIF_SYNC("truncate");
 	n = fwrite(buffer_get_ptr(bf), buffer_get_len(bf), 1, fh);
 	if (n < 1) {
 		warn("fwrite: %s", sf->path);
 		error = 1;
 		goto out;
 	}
+	VERIF_SYNC("write");
 
 out:
 	if (fh != NULL && fclose(fh) == EOF && !error) {
 		warn("fclose: %s", sf->path);
 		error = 1;
 	}
+	VERIF_SYNC("close");
 	buffer_free(bf);
 	return error;
 }
